@@ -152,12 +152,16 @@ type listener struct {
 
 func (l *listener) Listen() error {
 	var err error
+	// The lock is held from the closed check until the new listener has
+	// been recorded: Close either comes first, and we refuse, or finds
+	// the listener it has to close.
+	l.lock.Lock()
 	select {
 	case <-l.closeQ:
+		l.lock.Unlock()
 		return mangos.ErrClosed
 	default:
 	}
-	l.lock.Lock()
 	config := l.config
 	if config == nil {
 		l.lock.Unlock()
@@ -173,13 +177,14 @@ func (l *listener) Listen() error {
 		l.lock.Unlock()
 		return err
 	}
-	l.l = tls.NewListener(inner, config)
-	l.bound = l.l.Addr()
+	nl := tls.NewListener(inner, config)
+	l.l = nl
+	l.bound = nl.Addr()
 	l.lock.Unlock()
 
 	go func() {
 		for {
-			conn, err := l.l.Accept()
+			conn, err := nl.Accept()
 			if err != nil {
 				select {
 				case <-l.closeQ:
@@ -205,14 +210,20 @@ func (l *listener) Listen() error {
 }
 
 func (l *listener) Address() string {
-	if b := l.bound; b != nil {
+	l.lock.Lock()
+	b := l.bound
+	l.lock.Unlock()
+	if b != nil {
 		return "tls+tcp://" + b.String()
 	}
 	return "tls+tcp://" + l.addr
 }
 
 func (l *listener) Accept() (transport.Pipe, error) {
-	if l.l == nil {
+	l.lock.Lock()
+	nl := l.l
+	l.lock.Unlock()
+	if nl == nil {
 		return nil, mangos.ErrClosed
 	}
 	return l.hs.Wait()
@@ -220,11 +231,14 @@ func (l *listener) Accept() (transport.Pipe, error) {
 
 func (l *listener) Close() error {
 	l.once.Do(func() {
-		if l.l != nil {
-			_ = l.l.Close()
+		l.lock.Lock()
+		nl := l.l
+		close(l.closeQ)
+		l.lock.Unlock()
+		if nl != nil {
+			_ = nl.Close()
 		}
 		l.hs.Close()
-		close(l.closeQ)
 	})
 	return nil
 }
